@@ -261,6 +261,49 @@ def part_scripts(emit, closure, shard, nshards):
                         emit({"v": "held", "b": b})
 
 
+# operators that exist both as component-level and as dataset-level operators (the date-part extractors do not)
+LEVEL_T = ['dateadd({a}, 1, "M")', "round({a}, 1)", "trunc({a})", "ln({a})", "substr({a}, 1, 2)", "trim({a})", "floor({a})", 'instr({a}, "a")', "between({a}, 1, 5)", "ceil({a})",
+           'replace({a}, "a", "b")', 'cast({a}, string)']
+
+
+def part_levels(emit, shard, nshards):
+    """model-free: an operator accepts an operand type at component level iff it accepts it at dataset level; the result type of a
+    multi-branch case does not depend on the order of its branches"""
+    from vf import eng
+    types = list(DOC2ENG)
+    for k, t1 in enumerate(types):
+        if k % nshards != shard:
+            continue
+        one1 = [("Id_1", "Integer", "Identifier", False), ("Me_1", t1, "Measure", True)]
+        st = eng.structures(eng.mkds("DS_A", one1))
+        for tmpl in LEVEL_T:
+            op = tmpl.split("(")[0]
+            res = {}
+            for level, script in (("component", f"DS_r <- DS_A[calc Me_3 := {tmpl.format(a='Me_1')}];"), ("dataset", f"DS_r <- {tmpl.format(a='DS_A')};")):
+                s_, r = eng.call(eng.semantic_analysis, script, st)
+                res[level] = "accepts" if s_ == "ok" else ("rejects" if type(r).__name__ in ("SemanticError", "RunTimeError") else f"raises-{type(r).__name__}")
+            b = f"levels/{op}/{t1}"
+            if res["component"] != res["dataset"] and "raises" not in res["component"] + res["dataset"]:
+                emit({"v": "viol", "b": b, "mech": f"levels-disagree/{op}/{t1}/component-{res['component']}-dataset-{res['dataset']}",
+                      "what": f"{tmpl} on a {t1} operand: component level {res['component']}, dataset level {res['dataset']}", "case": {"part": "levels", "tmpl": tmpl, "t1": t1}})
+            else:
+                emit({"v": "held", "b": b})
+        for t2 in types:
+            comps = [("Id_1", "Integer", "Identifier", False), ("Me_1", t1, "Measure", True), ("Me_2", t2, "Measure", True)]
+            st2 = eng.structures(eng.mkds("DS_1", comps))
+            out = {}
+            for name, (x, y) in (("ab", ("Me_1", "Me_2")), ("ba", ("Me_2", "Me_1"))):
+                script = f"DS_r <- DS_1[calc Me_3 := case when Id_1 > 2 then {x} when Id_1 > 1 then {y} else null];"
+                s_, r = eng.call(eng.semantic_analysis, script, st2)
+                out[name] = r["DS_r"].components["Me_3"].data_type.__name__ if s_ == "ok" else f"rejected:{type(r).__name__}"
+            b = f"case-branch-order/{t1}/{t2}"
+            if out["ab"] != out["ba"]:
+                emit({"v": "viol", "b": b, "mech": f"case-result-depends-on-branch-order/{min(t1, t2)}-{max(t1, t2)}",
+                      "what": f"case when c1 then <{t1}> when c2 then <{t2}> else null is {out['ab']}; with the two branches swapped it is {out['ba']}", "case": {"part": "case-order", "t1": t1, "t2": t2}})
+            else:
+                emit({"v": "held", "b": b})
+
+
 def run_shard(spec, emit):
     from vf import eng  # noqa: F401  (boots the engine)
     closure = docs_closure()
@@ -269,6 +312,7 @@ def run_shard(spec, emit):
         part_functions(emit, closure)
     part_registries(emit, closure, spec["shard"], spec["nshards"])
     part_scripts(emit, closure, spec["shard"], spec["nshards"])
+    part_levels(emit, spec["shard"], spec["nshards"])
 
 
 def replay(case, emit):
